@@ -14,7 +14,7 @@ def run(rep, tier, seed, replay):
                    trusted_base=ltv.std_trusted_base(coq, [
                        "session harness (harness/common/session.{h,cc}, wirepeer.h): real library stepped manually under a virtual clock; "
                        "::send/::recv interposed to give each event_write an exact byte budget (the model's WriteReady k)",
-                       "modelled not verified: RC4 stream (plain connections only), throttle quota (unthrottled), storage errors in "
+                       "modelled not verified: RC4 keystream (Section variable ks; the scripted peer decrypts with its own RC4 from harness/common/msepeer.h), throttle quota (unthrottled), storage errors in "
                        "load_up_chunk, other messages sharing the write buffer (filtered out of the compared stream), "
                        "choke_queue policy (decisions are inputs; forced through the real choke_queue by INTERESTED / set_snubbed)",
                        "content bytes are a fixed arithmetic function of the offset, implemented three times (C++, OCaml, python)",
@@ -31,6 +31,7 @@ def run(rep, tier, seed, replay):
     nontrivial, mism, samples = set(), 0, []
     opk = {"R": 0, "C": 0, "D": 0, "W": 0}
     npiece = nclosed = 0
+    rows = []
     for i, case in enumerate(cases):
         m = mo[i] if i < len(mo) else "MISSING"
         full = io[i] if i < len(io) else "MISSING"
@@ -44,20 +45,22 @@ def run(rep, tier, seed, replay):
             nclosed += 1
         if len(samples) < 5 and i % 41 == 7:
             samples.append({"case": case[:300], "impl": full[:400]})
-        viol = G.oracle(case, full)
+        rows.append((case, m, o, full, G.oracle(case, full)))
         if m != o:
             mism += 1
-            if viol:
-                kl, text = viol[0]
-                rep.violation("model and implementation differ AND the property fails on the implementation: " + text,
-                              case=case, model=m, impl=full, theorem="correspondence C05 (peer-visible stream, snapshots)", klass=kl)
-            else:
-                rep.violation("correspondence broken: model and implementation differ on this input (property oracle holds on it)",
-                              case=case, model=m, impl=full, theorem="correspondence C05 (peer-visible stream, snapshots)",
-                              found_input=False)
+    # concrete property failures first (the report keeps the first 20 violations), shortest case first
+    for case, m, o, full, viol in sorted((x for x in rows if x[4]), key=lambda x: len(x[0])):
+        kl, text = viol[0]
+        if m != o:
+            rep.violation("model and implementation differ AND the property fails on the implementation: " + text,
+                          case=case, model=m, impl=full, theorem="correspondence C05 (peer-visible stream, snapshots)", klass=kl)
         else:
-            for kl, text in viol:
-                rep.violation(text, case=case, model=m, impl=full, theorem="property oracle C05", klass=kl)
+            rep.violation(text, case=case, model=m, impl=full, theorem="property oracle C05", klass=kl)
+    for case, m, o, full, viol in rows:
+        if m != o and not viol:
+            rep.violation("correspondence broken: model and implementation differ on this input (property oracle holds on it)",
+                          case=case, model=m, impl=full, theorem="correspondence C05 (peer-visible stream, snapshots)",
+                          found_input=False)
     if not coq["ok"]:
         rep.violation("C05 proof obligations no longer check (%d/%d): %s %s" % (
             coq["discharged"], coq["obligations"], "; ".join(coq["lint"] + coq["bad_axioms"]), coq["log"][-1500:]),
@@ -65,11 +68,11 @@ def run(rep, tier, seed, replay):
     stats = dict(stats)
     stats.update(ops=opk, piece_messages_seen=npiece, cases_closed_by_library=nclosed)
     rep.cov.update(evaluations=len(cases), distinct_nontrivial=len(nontrivial),
-                   rule="cases = corpus + hand list x 3 layouts + random valid / boundary / malformed request streams over 5 layouts "
+                   rule="cases = corpus + hand lists (plain, RC4, 512 KiB pieces) + random valid / boundary / malformed / inner-file-part request streams over 6 layouts, plain and RC4 "
                         "+ queue-limit case (+ exhaustive op lists of length <= 4 over 6 ops in thorough); "
                         "non-trivial = distinct case in which the implementation sent at least one PIECE",
                    samples=samples, input_distribution=stats, mismatches=mism,
                    exhaustive=(tier == "thorough"))
-    rep.assumptions += ["plain (unencrypted) connections", "upload throttle disabled (quota never limits a block)",
+    rep.assumptions += ["plain and RC4 (MSE, crypto_select 2) connections", "upload throttle disabled (quota never limits a block)",
                         "no storage error while mapping a chunk",
                         "request fields are uint32 (wire format)", "one scripted peer per connection; torrent not changing during a case"]
